@@ -328,17 +328,10 @@ def thread_round(acc, shard, r, tier, nthreads=16):
                          roots=["map", "layer", "class"])
     texts = []
 
-    @seed(env.shard_seed(ID + "/threads", shard, r))
-    @settings(max_examples=nthreads + 2, database=None, deadline=None, suppress_health_check=list(HealthCheck), phases=())
-    @given(st.data())
-    def gen(data):
-        pass
-
-    # draw the inputs with Hypothesis (seeded); phases=() would draw nothing, so use find-like explicit generation
     from hypothesis import Phase
 
     @seed(env.shard_seed(ID + "/threads", shard, r))
-    @settings(max_examples=nthreads + 2, database=None, deadline=None, suppress_health_check=list(HealthCheck), phases=(Phase.generate,))
+    @settings(max_examples=nthreads // 2 + 1, database=None, deadline=None, suppress_health_check=list(HealthCheck), phases=(Phase.generate,))
     @given(st.data())
     def gen2(data):
         ch = model.Ch(data.draw)
@@ -346,7 +339,7 @@ def thread_round(acc, shard, r, tier, nthreads=16):
         texts.append(render.render(doc, render.Surface(ch) if ch.bool() else None).text)
 
     gen2()
-    texts = texts[: nthreads + 2]
+    texts = texts[: nthreads // 2 + 1]   # every own text is used by two threads, the first text by all of them
     shared = texts[0]
 
     def work(text):
@@ -371,7 +364,7 @@ def thread_round(acc, shard, r, tier, nthreads=16):
     try:
         def run(i):
             try:
-                mine_ = [texts[1 + i % (len(texts) - 1)], shared, shared]
+                mine_ = [texts[1 + i % (len(texts) - 1)], shared]
                 res = []
                 for t in mine_:
                     res.append((t, work(t)))
@@ -388,7 +381,7 @@ def thread_round(acc, shard, r, tier, nthreads=16):
     finally:
         sys.setswitchinterval(old)
     case = {"round": r, "shard": shard, "texts": texts[:4]}
-    acc.case(["threads", shard, r], sum(1 for v in done.values() if v >= 2) >= 8, sample={"threads": nthreads, "calls_per_thread": 3, "shared_text": shared[:200]})
+    acc.case(["threads", shard, r], sum(1 for v in done.values() if v >= 2) >= 8, sample={"threads": nthreads, "calls_per_thread": 2, "shared_text": shared[:200]})
     acc.cls("thread_rounds")
     acc.cls("thread_calls", sum(done.values()))
     if errors:
